@@ -9,14 +9,48 @@ from vf.spec import onehot_witness, onehot_from_idx, spec_tensor
 
 
 class ValidateInput(Contract):
-    """utils._validate_input — ASSUMED at call sites (its body uses torch.unique / reductions whose
-    deductive treatment is out of reach); conformance of this contract with the real function is
-    checked exhaustively on small tensors by the bounded layer (bounded/C01.py), never counted as
-    proved.  Contract: raises iff X is not a tensor, its shape disagrees with `shape` (-1 = any), or
-    (ohe) X is not a one-hot encoding along dim 1 with both values 0 and 1 present."""
+    """utils._validate_input.  Contract: raises iff X is not a tensor, its shape disagrees with `shape` (-1 = any),
+    an element lies outside [min_value, max_value] (or there is no element to compare), or (ohe) X is not a one-hot
+    encoding along dim 1 with both values 0 and 1 present.  Verified against the body (C01) on the families of
+    arguments callers pass: one-hot-structured tensors with an arbitrary index function, plain integer / real
+    tensors; torch.unique, min / max as assumed relations (vf/lib.py).  allow_N=True and dtype= are not modelled
+    (a call with them is outside the verified subset).  The bounded layer (bounded/C01.py) additionally compares
+    the contract with the real function exhaustively on small tensors."""
     qualname = 'tangermeme.utils._validate_input'
     props = ('C01',)
-    assumed = True
+
+    # ---- verification of the contract against the body (DESIGN 9.9): the families of arguments on which callers
+    # ---- use it - one-hot-structured tensors X[.., c, ..] = [c == w(..)] with an ARBITRARY integer index function w
+    # ---- (a column is one-hot when 0 <= w < A and all-zero otherwise) and plain integer / real tensors
+    def configs(self):
+        return [dict(kind='ohe3', shape='none'), dict(kind='ohe3', shape='mid'), dict(kind='ohe3', shape='any3'), dict(kind='ohe3', shape='rank2'),
+                dict(kind='ohe2', shape='none'),
+                dict(kind='int2', shape='cols', lo=True, hi=False), dict(kind='real2', shape='any2', lo=True, hi=True),
+                dict(kind='real3', shape='any3', lo=False, hi=False), dict(kind='real3', shape='rank2', lo=False, hi=False)]
+
+    def scopes(self, cfg):
+        return [{'default': 2}, {'default': 1}, {'default': 3}]
+
+    def make_args(self, cfg, A):
+        kind = cfg['kind']
+        if kind.startswith('ohe'):
+            r = int(kind[-1])
+            dims = [A.dim('d%d' % i, 0) for i in range(r)]
+            w = z3.Function('w', *([z3.IntSort()] * (r - 1)), z3.IntSort())
+            X = onehot_from_idx(dims, lambda *rest: w(*[O.to_z3(x) for x in rest]), ohe_dim=1)
+        else:
+            r = int(kind[-1])
+            X = A.tensor('X', r, 'int' if kind.startswith('int') else 'real', shape=[A.dim('d%d' % i, 0) for i in range(r)])
+        shape = {'none': None, 'mid': (-1, A.int('S1'), -1), 'any3': (-1, -1, -1), 'any2': (-1, -1), 'rank2': (-1, -1) if r == 3 else (-1, -1, -1),
+                 'cols': (-1, A.int('S1'))}[cfg['shape']]
+        kw = dict(shape=shape)
+        if kind.startswith('ohe'):
+            kw['ohe'] = True
+        if cfg.get('lo'):
+            kw['min_value'] = 0
+        if cfg.get('hi'):
+            kw['max_value'] = 1
+        return [X, 'X'], kw
 
     def rejects(self, a, cfg):
         X = a.X
@@ -34,6 +68,10 @@ class ValidateInput(Contract):
                 conds.append(And(O.ne(s, -1), O.ne(s, d)))
         if a.get('dtype') is not None:
             raise Unsupported("_validate_input(dtype=...) not modelled")
+        if a.get('min_value') is not None or a.get('max_value') is not None:
+            # X.min() / X.max() of a tensor without elements raises (a RuntimeError of torch, not the ValueError of
+            # the function: found when the contract was verified against the body)
+            conds.append(Or(*[d <= 0 for d in X.shape]) if O.any_sym(*X.shape) else (X.numel() == 0))
         if a.get('min_value') is not None:
             conds.append(O.exists_box(X.shape, lambda *i: X.elem(*i) < a.min_value))
         if a.get('max_value') is not None:
